@@ -147,6 +147,17 @@ def diff(pages, table, reasons, stored):
             out.append({"rule": "merged-into-other-title", "key": m, "uids": [e["uid"], table[k]["uid"]],
                         "detail": "page %r is missing and its content is stored under %r" % (m, k)})
             continue
+        # stored under a related title AND with other content (two things wrong at once)
+        cand = [x for x in extra if x not in used_extra and x not in by_key_last and x[1] == m[1] and x[0] != "" and
+                (m[0].endswith(x[0]) or x[0].endswith(m[0]))]
+        if cand:
+            cand.sort(key=lambda x: (abs(len(x[0]) - len(m[0])), x[0]))
+            x = cand[0]
+            used_extra.add(x)
+            rel = "prefix-dropped" if m[0].endswith(x[0]) else "prefix-added"
+            out.append({"rule": "stored-under-other-title(%s)+altered" % rel, "key": m, "uids": [e["uid"]],
+                        "detail": "page %r is stored as %r and with other content: %r" % (m, x, _short(stored[x]))})
+            continue
         out.append({"rule": "lost", "key": m, "uids": [e["uid"]], "detail": "page %r is not in the store" % (m,)})
     for x in extra:
         if x in used_extra:
@@ -185,7 +196,7 @@ def diff(pages, table, reasons, stored):
         else:
             det = "page %r: expected %r stored %r" % (k, _short({"body": e["body"], "model": e["model"], "redirect": e["redirect"]}), _short(g))
         # pages whose expected key equals this key (duplicates) are all involved
-        uids = [p["uid"] for p in pages if (p["title"], p["ns"]) == k]
+        uids = [e["uid"]] + [p["uid"] for p in pages if (p["title"], p["ns"]) == k and p["uid"] != e["uid"]]
         out.append({"rule": rule, "key": k, "uids": uids, "detail": det})
     return out
 
